@@ -18,6 +18,22 @@ func c19Hook(dir, name string, mode os.FileMode, log string) {
 	os.Chmod(filepath.Join(dir, name), mode)
 }
 
+// a slow hook: logs its start like the others, then keeps running longer than the rate limit
+func c19HookSlow(dir, name string, log string, seconds string) {
+	script := fmt.Sprintf("#!/bin/sh\necho \"$(date +%%s%%N)|%s|$#|$1|$WHAWTY_AUTH_STORE\" >> %s\nsleep %s\n", name, log, seconds)
+	os.WriteFile(filepath.Join(dir, name), []byte(script), 0755)
+}
+
+// the hooks caller as the agent builds it, with a short rate limit
+func c19Caller(hd, store string, rate time.Duration) *HooksCaller {
+	h, err := NewHooksCaller(hd, store)
+	if err != nil {
+		panic(err)
+	}
+	h.rateLimit = rate // before the first notification: the run loop reads it when it arms the timer
+	return h
+}
+
 func c19ReadLog(log string) []string {
 	b, _ := os.ReadFile(log)
 	var out []string
@@ -55,8 +71,12 @@ func runC19(em *vEmitter, r *vRng) {
 		os.Mkdir(hd, 0755)
 		log := filepath.Join(root, "log")
 		c19Hook(hd, "h1", 0755, log)
-		h := &HooksCaller{Notify: make(chan bool, 32), NewStore: make(chan string, 1), dir: hd, store: "/store/A", rateLimit: rate}
-		go h.run()
+		hooks := []string{"h1"}
+		if pi%2 == 1 {
+			c19HookSlow(hd, "slow", log, "0.45")
+			hooks = append(hooks, "slow")
+		}
+		h := c19Caller(hd, "/store/A", rate)
 		start := time.Now()
 		var sent, sentAbs []int64
 		for _, off := range pat {
@@ -69,7 +89,13 @@ func runC19(em *vEmitter, r *vRng) {
 			h.Notify <- true
 		}
 		time.Sleep(2*rate + 150*time.Millisecond)
-		lines := c19ReadLog(log)
+		allLines := c19ReadLog(log)
+		var lines []string // the starts of h1: one per round
+		for _, l := range allLines {
+			if f := strings.Split(l, "|"); len(f) > 1 && f[1] == "h1" {
+				lines = append(lines, l)
+			}
+		}
 		// reconstruct the model's event sequence: a timer event fires [rate] after each arming notification
 		var evs []string
 		armedAt := int64(-1)
@@ -105,7 +131,7 @@ func runC19(em *vEmitter, r *vRng) {
 			}
 		}
 		viol := ""
-		for _, l := range lines {
+		for _, l := range allLines {
 			f := strings.Split(l, "|")
 			if len(f) < 5 || f[2] != "1" || f[3] != "update" || f[4] != "/store/A" {
 				viol = "hook started with wrong arguments / environment: " + l
@@ -114,16 +140,19 @@ func runC19(em *vEmitter, r *vRng) {
 		// coverage: every notification is followed by the start of a hook round at or after it
 		uncovered := 0
 		for _, ts := range sentAbs {
-			cov := false
-			for _, l := range lines {
-				var hs int64
-				fmt.Sscanf(strings.SplitN(l, "|", 2)[0], "%d", &hs)
-				if hs >= ts {
-					cov = true
+			for _, hk := range hooks { // every eligible hook, also one that is still running from the round before
+				cov := false
+				for _, l := range allLines {
+					f := strings.Split(l, "|")
+					var hs int64
+					fmt.Sscanf(f[0], "%d", &hs)
+					if len(f) > 1 && f[1] == hk && hs >= ts {
+						cov = true
+					}
 				}
-			}
-			if !cov {
-				uncovered++
+				if !cov {
+					uncovered++
+				}
 			}
 		}
 		c := vCase{Prop: "C19", Kind: "timing", Class: fmt.Sprintf("timing/%d-notifications", len(pat)), Nontrivial: len(pat) > 0,
@@ -143,8 +172,7 @@ func runC19(em *vEmitter, r *vRng) {
 		os.Mkdir(hd, 0755)
 		log := filepath.Join(root, "log")
 		c19Hook(hd, "h1", 0755, log)
-		h := &HooksCaller{Notify: make(chan bool, 32), NewStore: make(chan string, 1), dir: hd, store: "/store/A", rateLimit: rate}
-		go h.run()
+		h := c19Caller(hd, "/store/A", rate)
 		h.Notify <- true
 		time.Sleep(2 * rate)
 		h.NewStore <- "/store/B"
@@ -209,8 +237,7 @@ func runC19(em *vEmitter, r *vRng) {
 			listed = append(listed, fmt.Sprintf("{| e_name := %s; e_type := %s; e_mode := %d |}", cS(name), t, uint32(mode.Perm())))
 		}
 		os.Chmod(hd, dirMode)
-		h := &HooksCaller{Notify: make(chan bool, 32), NewStore: make(chan string, 1), dir: hd, store: "/store/A", rateLimit: rate}
-		go h.run()
+		h := c19Caller(hd, "/store/A", rate)
 		h.Notify <- true
 		time.Sleep(250 * time.Millisecond)
 		lines := c19ReadLog(log)
